@@ -446,6 +446,34 @@ fn corners(out: &mut Out, rng: &mut R) {
             }
         }
     }
+    // (10) pairs of representations on an issuance input: one descendant adds the explicit amounts next to
+    //      the commitments and sets the blinded-issuance marker (explicit-value proof data): same id
+    //      (the commitment wins, the marker is not identifying), so the merge goes through and keeps all
+    //      (gap found by seeded change C08-w2m2)
+    for marker in [0u8, 1] {
+        let comm = gen::point33(rng, 8).to_vec();
+        let kcomm = gen::point33(rng, 8).to_vec();
+        let base = vec![Add::new("i0", "issuance_value_comm", &[], &comm), Add::unset("i0", "issuance_value_amount"),
+            Add::new("i0", "issuance_inflation_keys_comm", &[], &kcomm), Add::unset("i0", "issuance_inflation_keys"),
+            Add::new("i0", "issuance_asset_entropy", &[], &[5u8; 32]), Add::unset("i0", "blinded_issuance")];
+        let a = base.clone();
+        let mut b = base.clone();
+        b.push(Add::new("i0", "issuance_value_amount", &[], &21u64.to_le_bytes()));
+        b.push(Add::new("i0", "issuance_inflation_keys", &[], &3u64.to_le_bytes()));
+        b.push(Add::new("i0", "blinded_issuance", &[], &[marker]));
+        b.push(Add::new("i0", "in_issuance_blind_value_proof", &[], &pd::small_rangeproof(rng)));
+        if let (Some(pa), Some(pb)) = (pd::build(&t, &a), pd::build(&t, &b)) {
+            out.s("merge_corner_ids_equal", uid_s(&pa) == uid_s(&pb), || format!("{} | {} | {} : {} vs {}", hex(&serialize(&t)), pd::adds_text(&a), pd::adds_text(&b), uid_s(&pa), uid_s(&pb)));
+            for e in ["01m", "10m"] {
+                if let Some(r) = k_mergex(out, &t, &[a.clone(), b.clone()], e) {
+                    for f in ["issuance_value_amount=1500000000000000", "issuance_inflation_keys=0300000000000000", "issuance_value_comm=", "issuance_inflation_keys_comm=", "in_issuance_blind_value_proof="] {
+                        out.s("merge_keeps_all", r.contains(f), || format!("pset.mergex {} {} {} {} : result lacks {} ({})", hex(&serialize(&t)), e, pd::adds_text(&a), pd::adds_text(&b), f, &r[..r.len().min(60)]));
+                    }
+                    out.s("merge_keeps_id", r.ends_with(&format!(" {}", uid_s(&pa))), || format!("pset.mergex {} {} {} {} : id {} -> {}", hex(&serialize(&t)), e, pd::adds_text(&a), pd::adds_text(&b), uid_s(&pa), r.rsplit(' ').next().unwrap_or("")));
+                }
+            }
+        }
+    }
     // (8) operands of different shape that still pass the gate are impossible without a collision;
     //     count mismatch on one side is an error on that side
     let a = vec![Add::new("g", "input_count", &[], &9u64.to_le_bytes())];
